@@ -152,16 +152,36 @@ func c14child(e *env) {
 		} else {
 			w.Count("round=std-handlers")
 		}
+		// every third round: the connections go through rend's accept loop (server.ListenAndServe)
+		// and are all accepted before any of them sends its first byte
+		viaListen := round%3 == 1
 		type connRun struct {
 			c     fsCase
 			steps []string
 			fail  *rig.GoFailure
+			pre   *stack.Conn // main-port connection accepted before the start (viaListen)
 		}
 		runs := make([]*connRun, nconn)
 		for i := range runs {
 			// private keys for connection i; the generator draws from fsKeys, so swap them per connection
 			c := genCaseKeys(r, deploy, locked, proto, 10+r.Intn(25), w, []string{fmt.Sprintf("c%d-a", i), fmt.Sprintf("c%d-b", i), fmt.Sprintf("c%d-c", i)})
 			runs[i] = &connRun{c: c}
+		}
+		if viaListen {
+			mainOrca := "l1l2"
+			if deploy == "l1only" {
+				mainOrca = "l1only"
+			}
+			ln := listenerFor(stack.Config{Orca: mainOrca, Locked: locked, MultiRd: true, L1: "std", Proto: proto})
+			ln.SetBackends(b)
+			for _, cr := range runs {
+				cn, err := ln.Dial(proto)
+				if err != nil {
+					rig.Die("%v", err)
+				}
+				cr.pre = cn
+			}
+			w.Count("round=via-accept-loop")
 		}
 		var wg sync.WaitGroup
 		start := make(chan struct{})
@@ -176,6 +196,9 @@ func c14child(e *env) {
 				}
 				orcaOf := map[string]string{"main": mainOrca, "batch": "l1l2batch"}
 				conns := map[string]*stack.Conn{}
+				if cr.pre != nil {
+					conns["main"] = cr.pre
+				}
 				defer func() {
 					for _, cn := range conns {
 						cn.Close()
@@ -227,7 +250,7 @@ func c14child(e *env) {
 				Nontrivial: nconn >= 2 && len(cr.steps) > 3, Tags: caseTags(cr.c)})
 		}
 	}
-	w.Res.Rule = "rounds of 2..64 real connections (full stack: parser, server loop, orchestrator, std handlers or - every third round - the batching pools of handlers/memcached/batched for both tiers, shared fake backends) started together, each running a random command sequence on its own private keys; every connection's replies are compared with the sequential model of that connection alone; in the thorough tier the binary is built with -race and every race report naming repository code is a finding"
+	w.Res.Rule = "rounds of 2..64 real connections (full stack: parser, server loop, orchestrator, std handlers or - every third round - the batching pools of handlers/memcached/batched for both tiers, shared fake backends; every third round the connections pass through rend's accept loop and are all accepted before the first byte of any) started together, each running a random command sequence on its own private keys; every connection's replies are compared with the sequential model of that connection alone; in the thorough tier the binary is built with -race and every race report naming repository code is a finding"
 	if err := w.Finish([]string{"base.Bytes", "base.Harness", "spec.MapSpec", "orca.Types", "proto.Resp", "checks.Check01"}, "case01", "check01 14"); err != nil {
 		rig.Die("%v", err)
 	}
